@@ -22,7 +22,7 @@ CTRL_NOTE = "Trusted: z3/CrossHair; the SimCluster contract (FIFO per executor c
 CHECKS.update({
  "C01": dict(category="other", design_ref="DESIGN.md §4 C01",
   technique="solver-driven exhaustive path exploration (CrossHair/z3) of the real controller+scheduler+runner against a simulated cluster",
-  text="The real controller loop (impl.run, notify, act, scheduler.api/assign/graph) and the real worker-side task execution (RunnerContext.project, runner.run, Memory, serde) run against SimCluster. DAG shape (<=3 tasks quick, <=4 thorough; positional/keyword/multi edges, 1-2 outputs), requested outputs, cluster shape and the first K scheduling decisions (which task body / transfer / fetch runs next, which channel delivers next, how events are batched) are decision variables; the decision tree is explored until CrossHair reports it exhausted. On every path: the outputs delivered are exactly the requested ones and each equals the term a 15-line sequential evaluator computes.", note=CTRL_NOTE),
+  text="The real controller loop (impl.run, notify, act, scheduler.api/assign/graph) and the real worker-side task execution (RunnerContext.project, runner.run, Memory, serde) run against SimCluster. DAG shape (<=3 tasks quick, <=4 thorough; positional/keyword/multi edges, 1-2 outputs), requested outputs, cluster shape and the first K scheduling decisions (which task body / transfer / fetch runs next, which channel delivers next, how events are batched) are decision variables; the decision tree is explored until CrossHair reports it exhausted. On every path: the outputs delivered are exactly the requested ones and each equals the term a 15-line sequential evaluator computes. act-step (shared with C02/C03): one call of controller.act.act on every assignment with <=3 preparation entries commands exactly the remote ones as transfers and sends one task sequence.", note=CTRL_NOTE),
  "C02": dict(category="other", design_ref="DESIGN.md §4 C02",
   technique="solver-driven exhaustive path exploration (CrossHair/z3) of the real controller against a simulated cluster with a dispatch monitor",
   text="Same exploration as C01 with GPU flags; a monitor inside the simulated executor checks at every dispatch: worker exists, has no unfinished sequence, satisfies the GPU requirement, task never dispatched before, every consumed dataset exists somewhere and is on the target host or a transfer to it is outstanding; at the end every task was dispatched exactly once.", note=CTRL_NOTE + " worker-wakeup: the receive loop of runner.entrypoint.entrypoint is lifted from the AST of the current source into a step function (harness error if the loop no longer has the expected shape) and driven with every arrival order of <=5 (thorough 7) messages from {command, publication of each of its two inputs, unrelated publication, unrelated purge, own output}: the sequence starts at most once, only after both inputs have arrived, and always once command and inputs have all arrived (no lost wake-up when the command overtakes a publication). act-step: one call of controller.act.act on every assignment with <=3 (thorough 4) preparation entries, each local or on one of two other hosts, in any order: exactly the remote entries are commanded as transfers, in order, followed by exactly one task sequence."),
